@@ -172,6 +172,17 @@ pub fn body(fill: char, right: bool, has_min: bool, has_max: bool, nsc: usize, n
 }
 
 harnesses! {
+    common {
+        #[cfg_attr(kani, kani::stub(<chrono::Local as chrono::TimeZone>::offset_from_utc_datetime, crate::c16_time::stub_offset_from_utc))]
+        #[cfg_attr(kani, kani::stub(<chrono::Local as chrono::TimeZone>::offset_from_local_datetime, crate::c16_time::stub_offset_from_local))]
+        #[cfg_attr(kani, kani::stub(chrono::Local::now, crate::c16_time::stub_local_now))]
+        #[cfg_attr(kani, kani::stub(chrono::Utc::now, crate::c16_time::stub_utc_now))]
+        #[cfg_attr(kani, kani::stub(log_mdc::get, crate::c09_pattern::stub_mdc_get))]
+        #[cfg_attr(kani, kani::stub(thread_id::get, crate::c09_pattern::stub_thread_id_get))]
+        #[cfg_attr(kani, kani::stub(std::process::id, crate::c09_pattern::stub_process_id))]
+        #[cfg_attr(kani, kani::stub(std::backtrace::Backtrace::capture, crate::util::stub_backtrace_capture))]
+        #[cfg_attr(kani, kani::stub(<anyhow::Error as std::ops::Drop>::drop, crate::util::stub_anyhow_drop))]
+    }
     // left/right x (min only | max only | both); fill ' '
     #[kani::unwind(8)]
     fn w_left_min() { body(' ', false, true, false, 3, 2, false, false, false) }
